@@ -55,14 +55,16 @@ struct gauss_seidel : public amgcl::relaxation::gauss_seidel<Backend> {
     template <class Matrix, class VectorRHS, class VectorX, class VectorTMP>
     void apply_pre(const Matrix &A, const VectorRHS &rhs, VectorX &x, VectorTMP &t) const
     {
-        Base::apply_pre(*A.local_backend(), rhs, x, t);
+        local_rhs(A, rhs, x, t);
+        Base::apply_pre(*A.local_backend(), t, x, t);
     }
 
     /// \copydoc amgcl::relaxation::damped_jacobi::apply_post
     template <class Matrix, class VectorRHS, class VectorX, class VectorTMP>
     void apply_post(const Matrix &A, const VectorRHS &rhs, VectorX &x, VectorTMP &t) const
     {
-        Base::apply_post(*A.local_backend(), rhs, x, t);
+        local_rhs(A, rhs, x, t);
+        Base::apply_post(*A.local_backend(), t, x, t);
     }
 
     template <class Matrix, class VectorRHS, class VectorX>
@@ -70,6 +72,19 @@ struct gauss_seidel : public amgcl::relaxation::gauss_seidel<Backend> {
     {
         Base::apply(*A.local_backend(), rhs, x);
     }
+
+    private:
+        // The sweep runs over the local diagonal block; the coupling to the
+        // unknowns owned by other processes is moved to the right-hand side:
+        // t = rhs - A_rem * x_rem = (rhs - A * x) + A_loc * x
+        template <class Matrix, class VectorRHS, class VectorX, class VectorTMP>
+        static void local_rhs(const Matrix &A, const VectorRHS &rhs, const VectorX &x, VectorTMP &t)
+        {
+            typedef typename math::scalar_of<typename Backend::value_type>::type scalar_type;
+            const scalar_type one = math::identity<scalar_type>();
+            backend::residual(rhs, A, x, t);
+            backend::spmv(one, *A.local_backend(), x, one, t);
+        }
 };
 
 } // namespace
